@@ -25,7 +25,11 @@ LEVEL_NOTE = ('Shapes bound the number of candidates (<=3 per layer, <=2 '
               'layers) and arguments (<=2 positional, <=1 keyword); content '
               'is symbolic. collect_functions layering is proved in C17 for '
               'the member fan-out; the parent walk of collect_functions is '
-              'covered by its own contract when present, else assumed.')
+              'covered by its own contract when present, else assumed. '
+              'What a registration RECORDS about a Python signature '
+              '(set_parameter reading inspect.getfullargspec) is under no '
+              'deductive contract: BOUNDED driver c05_signatures.py (288 '
+              'signature shapes against inspect.signature), never counted.')
 
 
 def units(ctx):
